@@ -11,6 +11,9 @@ PANIC_ALLOW = [
      "reason": "`offset += 1` once per yielded fragment: bounded by the number of fragments of a value that exists in memory"},
     {"path": "json_syntax::parse::Parser::<C, E>::next_char::{closure#1}", "detail": "Overflow(Add)",
      "reason": "`position += len`: position is bounded by the total length of the input consumed (E2 records the assumption)"},
+    {"path": "json_syntax::parse::decode_utf8", "detail": "Index::index",
+     "reason": "`&content[..n]` with n = e.valid_up_to() of the validation error of the same slice, or content.len(): n <= content.len() "
+               "(rule C01.entry/source checks exactly this data flow)"},
     {"path": "json_syntax::parse::decode_utf8", "detail": "slice API (core::slice::<impl [T]>::split_at)",
      "reason": "`content.split_at(e.valid_up_to())` with `e` the error of `from_utf8(content)` of the same slice: valid_up_to() <= content.len() by the contract of "
                "Utf8Error (rule C01.entry/source checks exactly this data flow: prefix(content, valid_up_to(utf8error-of(content))))"},
